@@ -963,7 +963,7 @@ class DataFrameSchema(Generic[TDataObject], BaseSchema):
         .. seealso:: :func:`reset_index`
 
         """
-        # pylint: disable=import-outside-toplevel,cyclic-import
+        # pylint: disable=import-outside-toplevel,cyclic-import,protected-access
         from pandera.api.pandas.components import Index, MultiIndex
 
         new_schema = copy.deepcopy(self)
@@ -998,8 +998,22 @@ class DataFrameSchema(Generic[TDataObject], BaseSchema):
                 Index(**_component_kwargs(new_schema.columns[col], col))
             )
 
+        # a MultiIndex that is appended to keeps its own options
+        multiindex_kwargs = (
+            {
+                "coerce": new_schema.index._coerce,
+                "strict": new_schema.index.strict,
+                "name": new_schema.index.name,
+                "ordered": new_schema.index.ordered,
+                "unique": new_schema.index.unique,
+            }
+            if isinstance(new_schema.index, MultiIndex) and append
+            else {}
+        )
         new_schema.index = (
-            ind_list[0] if len(ind_list) == 1 else MultiIndex(ind_list)
+            ind_list[0]
+            if len(ind_list) == 1
+            else MultiIndex(ind_list, **multiindex_kwargs)
         )
 
         # if drop is True as defaulted, drop the columns moved into the index
